@@ -430,3 +430,71 @@ def _pfft_contract(tag, with_scratch):
 
 _pfft_contract('no-scratch', False)
 _pfft_contract('scratch', True)
+
+
+# ---------------------------------------------------------------------------------------
+# scratch_shape: the advertised buffer shape is the FFT grid of the LONGEST wavelength, and that grid is at
+# least as large as the grid of every shorter wavelength (C09: "a buffer of exactly the advertised scratch
+# shape is sufficient")
+
+def _scratch_contract(tag, nwave):
+    c = contract('lentil.propagate.scratch_shape#%s' % tag, level='P')
+    c.qualname = 'lentil.propagate.scratch_shape'
+    c.tag = tag
+
+    def params(ctx):
+        if tag.startswith('scalar'):
+            dx, du = ctx.fresh_real('dx'), ctx.fresh_real('du')
+            ctx.assume(z3.And(dx > 0, du > 0))
+        else:
+            dx = (ctx.fresh_real('dx_r'), ctx.fresh_real('dx_c'))
+            du = (ctx.fresh_real('du_r'), ctx.fresh_real('du_c'))
+            ctx.assume(z3.And(dx[0] > 0, dx[1] > 0, du[0] > 0, du[1] > 0))
+        zz = ctx.fresh_real('z')
+        os_ = ctx.fresh_int('oversample')
+        ctx.assume(z3.And(zz > 0, os_ >= 1))
+        if nwave == 0:
+            wl = ctx.fresh_real('wavelength')
+            ctx.assume(wl > 0)
+        else:
+            ws = [ctx.fresh_real('wavelength%d' % k) for k in range(nwave)]
+            ctx.assume(z3.And(*[w > 0 for w in ws]))
+            wl = PyList(ws)
+        return {'dx': dx, 'du': du, 'z': zz, 'wavelength': wl, 'oversample': os_}
+    c.params = params
+    c.modifies = set()
+
+    @c.post('grid_of_the_longest_wavelength')
+    def _(ctx, env0, env, out):
+        dx, du = env0['dx'], env0['du']
+        dx = dx if isinstance(dx, tuple) else (dx, dx)
+        du = du if isinstance(du, tuple) else (du, du)
+        ws = env0['wavelength'].items if isinstance(env0['wavelength'], PyList) else [env0['wavelength']]
+        res = elems(ctx, out.value)
+        ctx.oblige('propagate.scratch_shape::is_a_2_tuple[%s]' % tag, isinstance(out.value, tuple) and len(res) == 2)
+        if len(res) != 2:
+            return None
+        for k in range(2):
+            grids = [S.round_(S.truediv(S.mul(S.mul(w, env0['z']), env0['oversample']), S.mul(dx[k], du[k]))) for w in ws]
+            # equals the grid of some listed wavelength and is at least the grid of every listed wavelength
+            ctx.oblige('propagate.scratch_shape::covers_every_wavelength[%s][axis %d]' % (tag, k),
+                       z3.And(z3.Or(*[S.z(S.eq(res[k], g)) for g in grids]), *[S.z(S.ge(res[k], g)) for g in grids]))
+        return None
+    return c
+
+
+SCRATCH = []
+for _tag, _n in (('scalar-one-wavelength', 0), ('scalar-three-wavelengths', 3), ('per-axis-two-wavelengths', 2)):
+    _scratch_contract(_tag, _n)
+    SCRATCH.append('lentil.propagate.scratch_shape#' + _tag)
+
+
+def grid_monotone_in_wavelength(ctx):
+    """round(a * l1) <= round(a * l2) for 0 < l1 <= l2 and a > 0: the grid of the longest wavelength of a band
+    is large enough for every wavelength inside the band (also those not listed)."""
+    a, l1, l2 = ctx.fresh_real('a'), ctx.fresh_real('l1'), ctx.fresh_real('l2')
+    ctx.assume(z3.And(a > 0, l1 > 0, l1 <= l2))
+    ctx.oblige('C09::fft_grid.monotone_in_wavelength', S.le(S.round_(S.mul(a, l1)), S.round_(S.mul(a, l2))))
+
+
+C09_LEMMAS = [('C09::fft_grid_monotone', grid_monotone_in_wavelength)]
